@@ -198,6 +198,21 @@ macro_rules! per_type {
                 }
                 Err(m) => ctx.violation(&format!("C19|shape|abs|{}", tname), json!({"what": m})),
             }
+            // ---- sign predicates follow the value (non-zero here): positive / negative / signum, a constant
+            {
+                let sg = Signed::signum(&x);
+                ctx.eval(3);
+                ctx.asserted(3);
+                ctx.class(&format!("sign:{}:{}", tname, if vx < 0.0 { "negative" } else { "positive" }));
+                let sg_ok = match sg.to_rnum() {
+                    Ok(m) => m.v == vx.signum() && m.g.values().all(|d| *d == 0.0) && m.h.values().all(|d| *d == 0.0),
+                    Err(_) => false,
+                };
+                if Signed::is_positive(&x) != (vx > 0.0) || Signed::is_negative(&x) != (vx < 0.0) || !sg_ok {
+                    ctx.violation(&format!("C19|sign|{}|{}", tname, if vx < 0.0 { "negative" } else { "positive" }),
+                        json!({"type": tname, "x": x.describe(), "is_positive": Signed::is_positive(&x), "is_negative": Signed::is_negative(&x), "signum": sg.describe()}));
+                }
+            }
             // ---- remainder, all operand forms
             let (vn, vd) = loop {
                 let n = rng.sign() * rng.log_uniform(0.05, 50.0);
@@ -376,6 +391,19 @@ fn run_number(ctx: &mut Ctx, rng: &mut Rng, idx: u64) {
         Ok(m) if num_kind(&ax) == kname && maps_equal_exact(&m, &RNum::abs(&rx)) => {}
         _ => ctx.violation(&format!("C19|abs|Number<{}>", kname), json!({"x": num_json(&x), "abs": num_json(&ax)})),
     }
+    {
+        let sg = Signed::signum(&x);
+        ctx.eval(3);
+        ctx.asserted(3);
+        ctx.class(&format!("sign:Number<{}>:{}", kname, if vx < 0.0 { "negative" } else { "positive" }));
+        let sg_ok = match num_to_rnum(&sg) {
+            Ok(m) => num_kind(&sg) == kname && m.v == vx.signum() && m.g.values().all(|d| *d == 0.0) && m.h.values().all(|d| *d == 0.0),
+            Err(_) => false,
+        };
+        if Signed::is_positive(&x) != (vx > 0.0) || Signed::is_negative(&x) != (vx < 0.0) || !sg_ok {
+            ctx.violation(&format!("C19|sign|Number<{}>", kname), json!({"x": num_json(&x), "is_positive": Signed::is_positive(&x), "is_negative": Signed::is_negative(&x), "signum": num_json(&sg)}));
+        }
+    }
     // remainder
     let (vn, vd) = loop {
         let n = rng.sign() * rng.log_uniform(0.05, 50.0);
@@ -460,6 +488,8 @@ impl Prop for C19 {
                 v.push(format!("cmp:{}:{}", t, c));
             }
             v.push(format!("abs:{}:negative", t));
+            v.push(format!("sign:{}:negative", t));
+            v.push(format!("sign:{}:positive", t));
             v.push(format!("abs:{}:positive", t));
             for f in ["dd:own,own", "dd:ref,ref", "df:own", "fd:own", "fd:ref"] {
                 for s in ["pos/pos", "pos/neg", "neg/pos", "neg/neg"] {
@@ -472,6 +502,7 @@ impl Prop for C19 {
         }
         for k in ["F64", "Dual", "Dual2"] {
             v.push(format!("abs:Number<{}>:negative", k));
+            v.push(format!("sign:Number<{}>:negative", k));
             v.push(format!("rem:Number<{}>:fn", k));
         }
         v
@@ -480,7 +511,7 @@ impl Prop for C19 {
         tier.pick(1_000_000, 50_000_000)
     }
     fn rule(&self) -> String {
-        "Seeded random and boundary pairs (negative values, negative divisors, equal values, +-0, NaN for comparisons only) on Dual, Dual2 and the Number container: 12 comparison forms per pair against the float comparison; abs against sign-flip of value and all derivatives (exact); a % b in 10 operand/ownership forms against a - b*trunc(a/b) in reference AD (noise band); Iterator::sum against the explicit left fold from zero (exact); x+0, 0+x, x*1, 1*x against x (exact, and by ==); is_zero. distinct_nontrivial = one per generated case (each has fresh random values and variable lists).".into()
+        "Seeded random and boundary pairs (negative values, negative divisors, equal values, +-0, NaN for comparisons only) on Dual, Dual2 and the Number container: 12 comparison forms per pair against the float comparison; abs against sign-flip of value and all derivatives (exact); is_positive / is_negative / signum against the sign of the (non-zero) value, signum carrying no derivative; a % b in 10 operand/ownership forms against a - b*trunc(a/b) in reference AD (noise band); Iterator::sum against the explicit left fold from zero (exact); x+0, 0+x, x*1, 1*x against x (exact, and by ==); is_zero. distinct_nontrivial = one per generated case (each has fresh random values and variable lists).".into()
     }
     fn assumptions(&self) -> Vec<String> {
         vec!["remainder cases with a/b within 1e-6 of an integer are regenerated (outside the formula's domain)".into(), "abs is not asserted within 1e-6 of zero".into()]
